@@ -418,6 +418,8 @@ def run_playback(g, h, test_src, logdir):
 INCLUDES = [
     "swimos_runtime__timeout_coord.rs",
     "playback/swimos_runtime__timeout_coord__verif_kani.rs",
+    "swimos_byte_channel__channel.rs",
+    "playback/swimos_byte_channel__channel__verif_kani.rs",
 ]
 
 
